@@ -31,7 +31,9 @@ func MakeFromRequest(r *http.Request) CacheKey {
 	if r.TLS != nil {
 		scheme = "https"
 	}
-	normHost := strings.ToLower(r.Host)
+	// Host names compare case-insensitively in ASCII only. A Unicode case mapping would fold other
+	// hosts onto an ASCII one (the KELVIN SIGN onto "k") and turn every invalid byte into U+FFFD.
+	normHost := asciiLower(r.Host)
 	// Normalise the path as it was sent (still percent-encoded, so that an encoded slash is not taken
 	// for a separator): dot segments and duplicate slashes go, but a trailing slash stays, because
 	// "/dir/" and "/dir" are different resources.
@@ -47,6 +49,16 @@ func MakeFromRequest(r *http.Request) CacheKey {
 	stringKey := fmt.Sprintf("%s|%s|%q|%q|%q", scheme, r.Method, normHost, normPath, r.URL.RawQuery)
 	slog.Debug("Creating cache key", "key", stringKey)
 	return FromString(stringKey)
+}
+
+func asciiLower(s string) string {
+	lowered := []byte(s)
+	for i, c := range lowered {
+		if c >= 'A' && c <= 'Z' {
+			lowered[i] = c + ('a' - 'A')
+		}
+	}
+	return string(lowered)
 }
 
 func (ck *CacheKey) String() string {
